@@ -25,6 +25,16 @@ def run(chk):
             lines.append('byname\t%s 0 null' % F.hx(nm))
         if rows[i]['ccp4']:
             lines.append('bynum\t%d' % rows[i]['ccp4'])
+    alts = F.alt_strings()
+    for j, a in enumerate(alts):
+        lines.append('o_alt\t%d' % j)
+        hm = a['hm'].decode()
+        exts = [chr(a['ext'])] if a['ext'] else ['']
+        for e in exts + ['1', '2', 'H', '']:
+            for nm in (hm, hm.replace(' ', ''), hm.lower()):
+                for sep in (':', ' :', ': '):
+                    lines.append('byname\t%s 0 null' % F.hx(nm + (sep + e if e else '')))
+                    lines.append('byname\t%s 0 %s' % (F.hx(nm + (sep + e if e else '')), F.hx('2')))
     lines += ['bynum\t%d' % n for n in (0, 1, 230, 231, 1003, 9999, -1, 4005)]
     lines += F.gen_names(rng, rows, 3000 if quick else 100000)
     for s in F.gen_hall(rng, rows, 4000 if quick else 300000):
